@@ -59,6 +59,7 @@ def run(ctx):
     ctx.sample({"params": r.p, "first_ops": [{k: (v if k != "utils" else [float(x).hex() for x in v]) for k, v in o.items()} for o in r.ops[:3]]})
     # with / without extra queries: later results identical (the statement itself, on the implementation)
     X.extra_query_oracle(ctx)
+    X.biqf_model_correspondence(ctx, "c03")
     # un-modelled stream strategies and BIQF: dynamic purity oracle
     X.strategy_purity(ctx, report_update=False)
     X.update_only_twin(ctx)
